@@ -724,3 +724,100 @@ func checkClearBeforeCopy(c *Ctx, p *Program, rule, pkg, typ, name string) {
 	}
 	c.orderRule(p, rule, what, f, "clearing of the whole receiver", isClear, "copy into the receiver", isCopy)
 }
+
+// RETALIAS: an exported method does not hand out its receiver's storage as a byte / element slice.
+// "Modifying a returned object never changes what later calls return": an encoder that returns the internal
+// buffer (`return s.k`), or an accessor of a slice-typed key that returns a sub-slice of the key
+// (`return priv[32:]`), lets the caller rewrite the object. Thirteen sites of the library do so on purpose.
+var retAliasExceptions = map[string]string{
+	"(*ot/simot.Receiver).Returnmc":          "accessor of the single-use OT transcript (used by the package's own protocol driver)",
+	"(*ot/simot.Sender).Returne0e1":          "accessor of the single-use OT transcript (used by the package's own protocol driver)",
+	"(*ot/simot.Sender).Returnm0m1":          "accessor of the single-use OT transcript (used by the package's own protocol driver)",
+	"(*ot/simot.Sender).Round2Sender":        "returns the two ciphertexts of the round it just computed; the object is single-use",
+	"(*simd/keccakf1600.StateX2).Initialize": "documented: returns the aligned window of the state for the caller to fill and read",
+	"(*simd/keccakf1600.StateX4).Initialize": "documented: returns the aligned window of the state for the caller to fill and read",
+	"(vdaf/prio3/arith/fp128.Poly).Strip":    "documented: returns a prefix of the polynomial itself",
+	"(vdaf/prio3/arith/fp64.Poly).Strip":     "documented: returns a prefix of the polynomial itself",
+}
+
+func checkReturnAlias(c *Ctx, p *Program) {
+	var fs []*ssa.Function
+	for f := range p.AllFuncs {
+		if f.Blocks != nil && isCirclFunc(f) && sourceFunc(f) && f.Parent() == nil && f.Signature.Recv() != nil && f.Object() != nil && f.Object().Exported() && !strings.Contains(funcPkgPath(f), "/internal/") {
+			fs = append(fs, f)
+		}
+	}
+	sort.Slice(fs, func(i, j int) bool { return fs[i].String() < fs[j].String() })
+	nret, nexc, nbad := 0, 0, 0
+	for _, f := range fs {
+		recv := ssa.Value(f.Params[0])
+		var hits []string
+		for _, b := range f.Blocks {
+			ret, ok := b.Instrs[len(b.Instrs)-1].(*ssa.Return)
+			if !ok {
+				continue
+			}
+			for _, rv := range ret.Results {
+				v := rv
+				if mi, ok := v.(*ssa.MakeInterface); ok {
+					v = mi.X // a slice-typed key handed out as crypto.PublicKey
+				}
+				if _, isSlice := v.Type().Underlying().(*types.Slice); !isSlice {
+					continue
+				}
+				nret++
+				for i := 0; i < 8; i++ {
+					switch x := v.(type) {
+					case *ssa.Slice:
+						v = x.X
+						continue
+					case *ssa.ChangeType:
+						v = x.X
+						continue
+					case *ssa.Convert:
+						if _, isSl := x.X.Type().Underlying().(*types.Slice); isSl {
+							v = x.X
+							continue
+						}
+					}
+					break
+				}
+				root := ""
+				if v == recv {
+					if _, isSl := recv.Type().Underlying().(*types.Slice); isSl {
+						root = "a slice of the receiver itself"
+					}
+				} else if u, ok := v.(*ssa.UnOp); ok && u.Op == token.MUL {
+					if n := recvField(recv, u.X); n != "" && n != "*" {
+						root = "the slice kept in field " + n
+					}
+				} else if n := recvField(recv, v); n != "" {
+					root = "the storage of field " + n
+				}
+				if root != "" {
+					hits = append(hits, fmt.Sprintf("%s: %s", p.pos(ret.Pos()), root))
+				}
+			}
+		}
+		if len(hits) == 0 {
+			continue
+		}
+		name := exportedNameOf(f)
+		construct := name + ": the slice handed out is not the object's own storage"
+		if why, ok := retAliasExceptions[name]; ok {
+			nexc++
+			c.ok("C11.retalias", construct, "exception: "+why, p.fnPos(f))
+			continue
+		}
+		nbad++
+		sort.Strings(hits)
+		c.bad("C11.retalias", construct, "the caller can rewrite the object through the result: "+strings.Join(hits, "; "), p.fnPos(f))
+	}
+	c.count("slice_results", nret)
+	if nret < 200 {
+		c.undecided("C11.retalias", "exported methods returning slices", fmt.Sprintf("only %d slice results found (floor 200)", nret), "")
+	}
+	if nbad == 0 {
+		c.ok("C11.retalias", "exported methods hand out copies, not their receiver's storage", fmt.Sprintf("%d slice results of exported methods inspected; %d documented exceptions", nret, nexc), "")
+	}
+}
